@@ -339,7 +339,7 @@ def r4_6(ctx: Ctx) -> RuleResult:
         for cls, origins in esc.function_escapes_all(fn).items():
             if ctx.repo.is_subclass(cls, "JSONPointerError"):
                 continue
-            if cls == "json.JSONDecodeError" and all("load_data" in o.func for o in origins):
+            if cls in ("json.JSONDecodeError", "UnicodeDecodeError") and all("load_data" in o.func for o in origins):
                 continue
             for o in origins:
                 bad.append((cls, o))
